@@ -30,6 +30,8 @@ type builder struct {
 	nb    int
 	paths []string
 	plain bool // literal notation only
+	// compact: lists of small letters / of their codes are made by atom_chars/2 / atom_codes/2 (the compact representations)
+	compact bool
 }
 
 func (b *builder) fresh() string { b.nb++; return fmt.Sprintf("B%d", b.nb) }
@@ -121,7 +123,13 @@ func (b *builder) list(t J) string {
 		return lit(es, tl)
 	}
 	for {
-		switch b.r.Intn(11) {
+		pick := b.r.Intn(11)
+		if b.compact && chars {
+			pick = 6
+		} else if b.compact && codes {
+			pick = 10
+		}
+		switch pick {
 		case 0, 1:
 			b.paths = append(b.paths, "literal")
 			return lit(es, tl)
@@ -275,7 +283,7 @@ func pairsHandle(c map[string]J) map[string]J {
 	sto, _ := c["sto"].(bool)
 	hsto, _ := c["hsto"].(bool)
 	for round := 0; round < rounds; round++ {
-		b := &builder{r: rand.New(rand.NewSource(caseSeed(c, strconv.Itoa(round)))), plain: round == 0}
+		b := &builder{r: rand.New(rand.NewSource(caseSeed(c, strconv.Itoa(round)))), plain: round == 0, compact: round == 1}
 		tx := b.term(c["x"])
 		ty := b.term(c["y"])
 		pre := earlier + strings.Join(append(b.goals, "true"), ", ")
@@ -415,7 +423,7 @@ func sortsHandle(c map[string]J) map[string]J {
 	}
 	_ = canonList
 	for round := 0; round < 2; round++ {
-		b := &builder{r: rand.New(rand.NewSource(caseSeed(c, "s"+strconv.Itoa(round)))), plain: round == 0}
+		b := &builder{r: rand.New(rand.NewSource(caseSeed(c, "s"+strconv.Itoa(round)))), plain: round == 0, compact: round == 1}
 		lt := "[]"
 		if len(l) > 0 {
 			lt = b.list(jt.List(l, nil))
